@@ -41,12 +41,12 @@ theorem construct_textual_some (b : BaseDt) (h : b.kind = .text ∨ b.kind = .te
     intro hs; subst hs
     cases b.maxLen <;> exact ⟨true, by simp⟩
 
-/-- **C13 (TOLERANT is total).** With the process default level TOLERANT, `datatype_factory` under
+/-- **C13 (TOLERANT is total).** `datatype_factory` under
     TOLERANT returns an object for *every* string and every base datatype of the version. -/
-theorem C13_tolerant_total (base : List BaseDt) (d : Defaults) (hd : d.strict = false)
+theorem C13_tolerant_total (base : List BaseDt)
     (hst : stTextual base = true) (dt : String) (b : BaseDt) (hb : findBase base dt = some b)
     (hk : b.kind ≠ .other) (s : Str) (hdom : outOfDomain b.kind s = false) :
-    ∃ x, factory base d dt s false = .ok x := by
+    ∃ x, factory base dt s false = .ok x := by
   unfold factory
   simp only [hb]
   cases hc : construct b s false with
@@ -91,14 +91,14 @@ theorem C13_tolerant_total (base : List BaseDt) (d : Defaults) (hd : d.strict = 
     | none => simp [hs] at hst
     | some st =>
       simp only [hs, Bool.or_eq_true, beq_iff_eq] at hst
-      obtain ⟨r, hr, hv⟩ := construct_textual_some st hst s d.strict
+      obtain ⟨r, hr, hv⟩ := construct_textual_some st hst s false
       simp only [hr]
-      obtain ⟨v27, hv⟩ := hv hd
+      obtain ⟨v27, hv⟩ := hv rfl
       first | exact ⟨_, hv⟩ | exact ⟨_, hv.symm⟩
 
-/-- **C13 (TOLERANT never raises ValueError)**, whatever the process default level is. -/
-theorem C13_tolerant_never_valueError (base : List BaseDt) (d : Defaults) (hst : stTextual base = true)
-    (dt : String) (s : Str) : factory base d dt s false ≠ .error .ValueError := by
+/-- **C13 (TOLERANT never raises ValueError).** -/
+theorem C13_tolerant_never_valueError (base : List BaseDt) (hst : stTextual base = true)
+    (dt : String) (s : Str) : factory base dt s false ≠ .error .ValueError := by
   unfold factory
   cases hb : findBase base dt with
   | none => simp
@@ -131,17 +131,17 @@ theorem C13_tolerant_never_valueError (base : List BaseDt) (d : Defaults) (hst :
       | none => simp [hs] at hst
       | some st =>
         simp only [hs, Bool.or_eq_true, beq_iff_eq] at hst
-        obtain ⟨r, hr, _⟩ := construct_textual_some st hst s d.strict
+        obtain ⟨r, hr, _⟩ := construct_textual_some st hst s false
         simp only [hr]
         rcases hst with h | h <;> simp only [construct, outOfDomain, constructCore, h, textual, Bool.false_eq_true, if_false] at hr <;>
           (cases hm : st.maxLen <;> simp only [hm] at hr <;> cases hr <;> (try split) <;> simp)
 
 /-- **C13 (max length, textual).** Under STRICT a textual value longer than the class's maximum
     length is rejected with `MaxLengthReached`. -/
-theorem C13_maxlen_textual (base : List BaseDt) (d : Defaults) (dt : String) (b : BaseDt)
+theorem C13_maxlen_textual (base : List BaseDt) (dt : String) (b : BaseDt)
     (hb : findBase base dt = some b) (hk : b.kind = .text ∨ b.kind = .text27) (ml : Nat)
     (hm : b.maxLen = some ml) (s : Str) (hl : s.length > ml) :
-    factory base d dt s true = .error .MaxLengthReached := by
+    factory base dt s true = .error .MaxLengthReached := by
   unfold factory
   rcases hk with hk | hk <;> simp [hb, construct, outOfDomain, constructCore, hk, textual, hm, hl]
 
@@ -170,9 +170,9 @@ theorem C13_dt_length (s : Str) (h : s.length ≠ 4 ∧ s.length ≠ 6 ∧ s.len
 
 /-- **C13 (STRICT raises only what the contract names).** For a modelled class the only errors of
     STRICT construction are `ValueError` and `MaxLengthReached`. -/
-theorem C13_strict_reject_is_valueError (base : List BaseDt) (d : Defaults) (dt : String) (b : BaseDt)
+theorem C13_strict_reject_is_valueError (base : List BaseDt) (dt : String) (b : BaseDt)
     (hb : findBase base dt = some b) (hk : b.kind ≠ .other) (s : Str) (hdom : outOfDomain b.kind s = false) (e : Exc)
-    (h : factory base d dt s true = .error e) : e = .ValueError ∨ e = .MaxLengthReached := by
+    (h : factory base dt s true = .error e) : e = .ValueError ∨ e = .MaxLengthReached := by
   unfold factory at h
   simp only [hb] at h
   cases hc : construct b s true with
@@ -204,10 +204,10 @@ theorem C13_strict_reject_is_valueError (base : List BaseDt) (d : Defaults) (dt 
 
 /-- **C13 (TOLERANT keeps rejected text verbatim).** Text that the datatype's own constructor
     rejects is kept, unchanged, as a textual (`ST`) value. -/
-theorem C13_tolerant_verbatim_fallback (base : List BaseDt) (d : Defaults) (hd : d.strict = false)
+theorem C13_tolerant_verbatim_fallback (base : List BaseDt)
     (hst : stTextual base = true) (dt : String) (b : BaseDt) (hb : findBase base dt = some b) (s : Str)
     (hrej : construct b s false = none) :
-    ∃ v27, factory base d dt s false = .ok (.esc v27 s) := by
+    ∃ v27, factory base dt s false = .ok (.esc v27 s) := by
   unfold factory
   simp only [hb, hrej, Bool.false_eq_true, if_false]
   unfold stTextual at hst
@@ -215,8 +215,8 @@ theorem C13_tolerant_verbatim_fallback (base : List BaseDt) (d : Defaults) (hd :
   | none => simp [hs] at hst
   | some st =>
     simp only [hs, Bool.or_eq_true, beq_iff_eq] at hst
-    obtain ⟨r, hr, hv⟩ := construct_textual_some st hst s d.strict
-    obtain ⟨v27, hv⟩ := hv hd
+    obtain ⟨r, hr, hv⟩ := construct_textual_some st hst s false
+    obtain ⟨v27, hv⟩ := hv rfl
     exact ⟨v27, by simp [hr, hv]⟩
 
 /-- **C13 (SI round trip, partial).** Every sequence id `0 … 999` written in plain decimal form is
